@@ -155,11 +155,14 @@ c16!(c16_std10_read_size9, 13, read_instr_never_panics::<9>(&StdHooks10, 6, 2, 9
 
 //@ C16 c16_std_quad_no_panic quick default STD object table: read_quad on 36 arbitrary bytes returns a quad, the terminator or an error and never panics (unknown kinds and sizes are reported, not asserted)
 c16!(c16_std_quad_no_panic, 6, {
+    // The REAL root emitter, not the cutting one: a path on which read_quad only warns and carries on
+    // must stay under check up to its return (the cutting emitter ends every path at its first
+    // diagnostic, which is only sound where the diagnostic is the function's error return; the seeded
+    // change C16-std-quad-size-lenient turned an error into a warning and was missed for that reason).
     let root = crate::verif_common::noop_emitter();
-    let cut = crate::verif_common::CutEmitter;
     let bytes: [u8; 0x24] = kani::any();
     let mut r = BinReader::from_reader(&root, "x", std::io::Cursor::new(bytes.to_vec()));
-    match read_quad(&mut r, &cut) {
+    match read_quad(&mut r, &root) {
         Ok(q) => core::mem::forget(q),
         Err(e) => core::mem::forget(e),
     }
